@@ -61,6 +61,8 @@ type childResult struct {
 	DepthErr  bool   `json:"depth_err"`
 	FirstLine int    `json:"first_line,omitempty"`
 	FirstCol  int    `json:"first_col,omitempty"`
+	// validator.VerifCounters consumed by this run (only with build tag c12walks)
+	Counters []int64 `json:"counters,omitempty"`
 }
 
 func countSels(doc *ast.Document) int {
@@ -111,9 +113,11 @@ func runWork(c Case, src string, s *graphql.Schema) childResult {
 		rules = append(rules, graphql.ValidateCost("", nil, -1, &actual, graphql.FieldCost{Resolver: 1}))
 	}
 	before := atomic.LoadInt64(&validator.VerifCostVisits)
+	c0 := countersSnapshot()
 	t0 := time.Now()
 	doc, errs := graphql.ParseAndValidate(src, s, nil, rules...)
 	r.ElapsedNs = time.Since(t0).Nanoseconds()
+	r.Counters = countersDelta(c0)
 	r.Visits = atomic.LoadInt64(&validator.VerifCostVisits) - before
 	r.Errs = len(errs)
 	r.Accepted = doc != nil && len(errs) == 0
@@ -655,6 +659,9 @@ func (h *harness) workFamily(f family) {
 		if v.mode == "" || v.mode == "visits-bound" {
 			h.walkTie(c, o)
 		}
+		if o.Status == "ok" {
+			h.walksCompare(c, o.Res)
+		}
 		if v.mode != "" {
 			run.Violate("property", v.mode+": "+v.what, key2, false, c)
 			if v.mode == "timeout" || v.mode == "crash" || v.mode == "visits-bound" {
@@ -1060,6 +1067,7 @@ func (h *harness) walkCompare(c Case, r, full childResult, parsed bool, panicked
 	if !ok {
 		run.Violate("correspondence", what, "", true, c)
 	}
+	h.walksCompare(c, full)
 	if r.Sels > 0 && r.Visits > selBound(r.Sels) {
 		v := workVerdict{"visits-bound", fmt.Sprintf("the cost walk visited %d fields/spreads of a document that has %d", r.Visits, r.Sels)}
 		key := ""
